@@ -126,6 +126,10 @@ Definition with_cmd_scope (s : st) (k : st -> res * st) : res * st :=
 Definition is_trap_inherited (g : sig) (s : st) : bool :=
   match g with SErr => errtrace s | SExit => true end.
 
+(** [is_lone_quiet_compound_command]: brace group, if, while/until, for, case (not a subshell) *)
+Definition is_quiet_compound (c : cmd) : bool :=
+  match c with CBrace _ | CIf _ _ _ | CFor _ _ | CWhile _ _ => true | _ => false end.
+
 Definition is_normal (r : res) : bool := match r with ROk FNormal _ => true | _ => false end.
 
 Section Exec.
@@ -310,13 +314,16 @@ Section Exec.
         let '(r, s1) := ex sup' c s in
         match r with
         | ROk f code0 =>
-            let code := if bang then (if code0 =? 0 then 1 else 0) else code0 in
+            (* `!` inverts the status, but not the one carried by a return/exit leaving through here *)
+            let code := if bang && flow_eqb f FNormal then (if code0 =? 0 then 1 else 0) else code0 in
             let s2 := set_status code s1 in
             let fire := negb (code =? 0) && negb sup' in
             let '(hr, s3) :=
               if fire then match t_err s2 with Some _ => invoke SErr sup' s2 | None => (ROk FNormal 0, s2) end
               else (ROk FNormal 0, s2) in
-            let f' := if negb sup' && errexit s3 && negb (code =? 0) && flow_eqb f FNormal then FExit else f in
+            (* errexit: never triggered by a lone brace group / if / loop by itself *)
+            let f' := if negb sup' && negb (is_quiet_compound c) && errexit s3 && negb (code =? 0) && flow_eqb f FNormal
+                      then FExit else f in
             match hr with
             | RFuel | RExec _ => (hr, s3)
             | ROk FExit _ => if fixed cf then (hr, s3) else (ROk f' code, s3)
